@@ -76,6 +76,7 @@ struct Machine {
 	uint64_t nanResults = 0;        // FP results canonicalised to the RISC-V canonical NaN
 	uint64_t misaligned = 0;        // naturally-misaligned data accesses (legal on Linux, counted)
 	uint64_t formCount[F_COUNT] = {};
+	bool traceCsr = false;          // debugging aid: print every frm write to stderr
 	std::vector<Range> ranges;
 
 	// Optional execution map: one byte per 2-byte parcel of [execBase, execBase+2*execParcels):
